@@ -90,6 +90,11 @@ def make_array(c):
     if c["content"] == "small":
         return np.round(rng.normal(0, 3, shape)).astype(dt)
     a = rng.normal(0, 1, shape) * 10.0 ** rng.integers(-6, 7, shape)
+    if dt is np.float64 and c["seed"] % 4 == 0:
+        # double-precision values beyond the single-precision range: narrowing them is IEEE's (+-inf), like any other cast
+        flat = a.reshape(-1)
+        for k_, v_ in zip(rng.integers(0, n, 4), (3.5e38, -1e39, 5e200, -3.4028235e38)):
+            flat[int(k_)] = v_
     return a.astype(dt)
 
 
